@@ -205,7 +205,9 @@ var largeShapes = []string{"pairs", "stars", "stars", "big_stars", "big_stars", 
 // per record); the shape "pairs" has half a link per record.  The number of
 // clusters is scaled from a pilot data set of the same shape.
 func genLargeSpec(t *rapid.T, shapes []string, samples []int, sparse bool, minLinks, maxLinks int) largeSpec {
-	sp := largeSpec{Seed: rapid.Uint64().Draw(t, "seed")}
+	// (rapid draws small values first: the shard and run seeds are mixed in so that two
+	// processes drawing the same shape do not rebuild the same data set)
+	sp := largeSpec{Seed: rapid.Uint64().Draw(t, "seed") ^ (uint64(evid.Seed())*1000003+uint64(evid.Shard()))*0x9e3779b97f4a7c15}
 	sp.Samples = rapid.SampledFrom(samples).Draw(t, "samples")
 	shape := rapid.SampledFrom(shapes).Draw(t, "shape")
 	dense := !sparse || rapid.IntRange(0, 3).Draw(t, "dense") != 0
